@@ -40,9 +40,9 @@ type outcome struct {
 
 // surface is one byte-taking entry point.
 type surface struct {
-	name  string
-	size  int    // the one accepted length (-1: every length is acceptable input)
-	valid []byte // a valid encoding of that length
+	name   string
+	size   int    // the one accepted length (-1: every length is acceptable input)
+	valid  []byte // a valid encoding of that length
 	valid2 []byte // optional: a second, different valid encoding (for chunk substitution)
 	// call runs the entry point on data with a fresh (used=false) or previously set (used=true) receiver.
 	call func(used bool, data []byte) outcome
@@ -231,6 +231,7 @@ func run(c *mc.Ctx) {
 	}
 	c.Rep.Extra["surfaces"] = len(surfaces)
 	cacheHistories(c)
+	sizeThresholds(c)
 	transcripts(c)
 }
 
@@ -443,7 +444,10 @@ func buildSurfaces(c *mc.Ctx) []surface {
 	}})
 	// documented: ph requires a 64-byte pre-hashed message (panics otherwise)
 	add(surface{name: "ed25519.VerifyWithOptions(ph message bytes)", size: 64, valid: make([]byte, 64), call: func(used bool, d []byte) (o outcome) {
-		guard(&o, func() { ed25519.VerifyWithOptions(pk, d, sig, &ed25519.Options{Hash: crypto.SHA512}); o.accepted = len(d) == 64 })
+		guard(&o, func() {
+			ed25519.VerifyWithOptions(pk, d, sig, &ed25519.Options{Hash: crypto.SHA512})
+			o.accepted = len(d) == 64
+		})
 		return
 	}, mayPanic: func(d []byte) bool { return len(d) != 64 }})
 	add(surface{name: "BatchVerifier.Add(signature bytes)", size: 64, valid: sig, call: func(used bool, d []byte) (o outcome) {
@@ -666,7 +670,9 @@ func buildSurfaces(c *mc.Ctx) []surface {
 		return
 	}})
 	add(surface{name: "h2c.ExpandMessageXMD(output length)", size: -1, call: func(used bool, d []byte) (o outcome) {
-		guard(&o, func() { o.accepted = h2c.ExpandMessageXMD(make([]byte, len(d)*37), crypto.SHA256, []byte("dst"), msg) == nil })
+		guard(&o, func() {
+			o.accepted = h2c.ExpandMessageXMD(make([]byte, len(d)*37), crypto.SHA256, []byte("dst"), msg) == nil
+		})
 		return
 	}})
 	add(surface{name: "h2c.ExpandMessageXOF(dst bytes)", size: -1, call: func(used bool, d []byte) (o outcome) {
@@ -674,7 +680,9 @@ func buildSurfaces(c *mc.Ctx) []surface {
 		return
 	}})
 	add(surface{name: "h2c.ExpandMessageXOF(output length)", size: -1, call: func(used bool, d []byte) (o outcome) {
-		guard(&o, func() { o.accepted = h2c.ExpandMessageXOF(make([]byte, len(d)*97), sha3.NewShake256(), []byte("dst"), msg) == nil })
+		guard(&o, func() {
+			o.accepted = h2c.ExpandMessageXOF(make([]byte, len(d)*97), sha3.NewShake256(), []byte("dst"), msg) == nil
+		})
 		return
 	}})
 	add(surface{name: "h2c.Edwards25519_XMD_SHA512_ELL2_RO(dst,msg bytes)", size: -1, call: func(used bool, d []byte) (o outcome) {
